@@ -234,7 +234,7 @@ func init() {
 				if !quick {
 					maxRaw, maxFramed, maxW = 11, 9, 5
 				}
-				for _, t := range []int{14, 15, 16} {
+				for _, t := range []int{14, 15, 16, 22} {
 					for n := 0; n <= maxRaw; n++ {
 						jobs = append(jobs, J(encPkg, "H_C11_raw", n, t, n%2))
 					}
@@ -242,6 +242,8 @@ func init() {
 						jobs = append(jobs, J(encPkg, "H_C11_framed", n, t, n%2))
 					}
 				}
+				// template 22 (every value type): framed bodies long enough for "35=x|t=" + empty value
+				jobs = append(jobs, J(encPkg, "H_C11_framed", 7, 22, 0), J(encPkg, "H_C11_framed", 7, 22, 1))
 				for n := 0; n <= 8; n++ {
 					for k := 0; k <= 3; k++ {
 						jobs = append(jobs, J(encPkg, "H_C11_vbt", n, k))
@@ -252,7 +254,7 @@ func init() {
 					t, nf int
 					c     [3]int
 				}
-				shapes := []sh{{14, 6, [3]int{2, 0, 0}}, {15, 10, [3]int{2, 1, 0}}, {15, 12, [3]int{1, 2, 0}}, {16, 9, [3]int{2, 1, 0}}, {5, 10, [3]int{2, 1, 0}}, {13, 10, [3]int{1, 1, 1}}, {12, 10, [3]int{1, 1, 0}}, {8, 6, [3]int{1, 0, 0}}}
+				shapes := []sh{{14, 6, [3]int{2, 0, 0}}, {15, 10, [3]int{2, 1, 0}}, {15, 12, [3]int{1, 2, 0}}, {16, 9, [3]int{2, 1, 0}}, {5, 10, [3]int{2, 1, 0}}, {13, 10, [3]int{1, 1, 1}}, {12, 10, [3]int{1, 1, 0}}, {8, 6, [3]int{1, 0, 0}}, {22, 9, [3]int{1, 0, 0}}}
 				all := 1<<30 - 1
 				masks := []int{all, all &^ 4, all &^ 2, 0x15555555}
 				for _, s := range shapes {
@@ -262,6 +264,9 @@ func init() {
 								for mode := 0; mode <= 1; mode++ {
 									if mode == 1 && w > 2 && quick {
 										continue
+									}
+									if s.t == 22 && (w > 2 || mk != all) {
+										continue // typed values make these windows expensive: tag= / t=x windows only
 									}
 									jobs = append(jobs, J(encPkg, "H_C11_window", s.t, mk, s.c[0], s.c[1], s.c[2], 0, 3, (f+w)%2, f, w, mode))
 								}
@@ -273,7 +278,7 @@ func init() {
 			},
 			Explanation:  "Bounded symbolic execution of encoding.Unmarshal (strict and non-strict) and fix.ValueByTag on (a) completely symbolic byte strings of every length 0..n, (b) correctly framed messages whose body is n completely symbolic bytes and whose checksum text is symbolic, so the integrity check can pass and field/group parsing is reached with adversarial content, (c) valid serialized nested shapes with a window of w symbolic bytes replacing one field or filling one field boundary. Every Go runtime panic on any feasible path is a violation; the per-path instruction budget is the unwinding assertion (termination).",
 			Rule:         "case = (input class, length / window position and width, template) x path",
-			Bounds:       map[string]string{"quick": "raw n<=8, framed body n<=6, ValueByTag msg<=8 tag<=3 bytes, windows w<=3 over 8 nested shapes x 4 populations, templates with 1-digit tags (flat+group, group-in-group, component-in-group) and 5 catalogue shapes", "thorough": "raw n<=11, framed n<=9, windows w<=5"},
+			Bounds:       map[string]string{"quick": "raw n<=8, framed body n<=6, ValueByTag msg<=8 tag<=3 bytes, windows w<=3 over 9 shapes x 4 populations (w<=2, full population for the every-value-type shape), templates with 1-digit tags (flat+group, group-in-group, component-in-group, every value type) and 6 catalogue shapes", "thorough": "raw n<=11, framed n<=9, windows w<=5"},
 			Assumptions:  commonAssumptions,
 			Outside:      "longer arbitrary regions; the session's inbound closures are exercised with damaged messages under C16",
 			Differential: 6,
